@@ -81,14 +81,14 @@ package oj
 //@   requires VRel(p, spec.Run(qi, S, base), base, base)
 //@   requires [own] arrid(p.stack) != arrid(buf)
 //@   modifies p.stack, p.ri, p.mode, p.nextMode, p.line, p.noff, heap(p.stack)
-//@   ensures [C01 sim] result == nil ==> VRel(p, spec.Run(qi, S, base+len(buf)), base+len(buf), base)
+//@   ensures [C01 C09 sim] result == nil ==> VRel(p, spec.Run(qi, S, base+len(buf)), base+len(buf), base)
 //@   ensures [C01 accept] result == nil && last ==> spec.AcceptEOF(spec.Run(qi, S, base+len(buf)))
 //@   ensures [C01 C09 reject] result != nil ==> typeis(result, ParseError, ptr) && VErr(as(result, ParseError), as(result, ParseError).Column + p.noff, qi, S, base, len(buf), last)
 //@   ensures [C07 own] arrid(p.stack) == old(arrid(p.stack)) || fresh(p.stack)
 //@   loop 0
-//@     invariant 0 <= off && off <= len(buf) && depth == len(p.stack)
+//@     invariant [C01 C06 C09 bounds] 0 <= off && off <= len(buf) && depth == len(p.stack)
 //@     invariant [C07 own] arrid(p.stack) == old(arrid(p.stack)) || fresh(p.stack)
-//@     invariant [C01 sim] VRel(p, spec.Run(qi, S, base+off), base+off, base)
+//@     invariant [C01 C09 sim] VRel(p, spec.Run(qi, S, base+off), base+off, base)
 //@     variant len(buf) - off
 //@     split spec.Run(qi, S, base+off).Ph in spec.DocStart, spec.DocEnd, spec.ArrFirst, spec.ArrNext, spec.ObjFirst, spec.ObjKey, spec.ObjColon,
 //@        spec.ObjValue, spec.After, spec.Str, spec.StrEsc, spec.StrU, spec.NumNeg, spec.NumZero, spec.NumInt, spec.NumDot, spec.NumFrac,
@@ -104,8 +104,8 @@ package oj
 //@     invariant $k >= 0 ==> i == $k && b == $s[$k]
 //@     invariant $k == -1 ==> i == i0 && b == b0
 //@     invariant $k >= 0 ==> spaceMap[b] == skipChar
-//@     invariant [C01 sim] EqButOff(spec.Run(qi, S, base+o1+$k+1), R1) && spec.Run(qi, S, base+o1+$k+1).Off == base+o1+$k+1
-//@     invariant [C01 sim] $k >= 0 ==> EqButOff(spec.Run(qi, S, base+o1+$k), R1) && spec.Run(qi, S, base+o1+$k).Off == base+o1+$k
+//@     invariant [C01 C09 sim] EqButOff(spec.Run(qi, S, base+o1+$k+1), R1) && spec.Run(qi, S, base+o1+$k+1).Off == base+o1+$k+1
+//@     invariant [C01 C09 sim] $k >= 0 ==> EqButOff(spec.Run(qi, S, base+o1+$k), R1) && spec.Run(qi, S, base+o1+$k).Off == base+o1+$k
 //@     use spec.Run.unfold(qi, S, base+o1+$k+1)
 //@   loop 2
 //@     let o1 = off + 1
@@ -116,8 +116,8 @@ package oj
 //@     invariant $k >= 0 ==> i == $k && b == $s[$k]
 //@     invariant $k == -1 ==> i == i0 && b == b0
 //@     invariant $k >= 0 ==> stringMap[b] == strOk
-//@     invariant [C01 sim] EqButOff(spec.Run(qi, S, base+o1+$k+1), R1) && spec.Run(qi, S, base+o1+$k+1).Off == base+o1+$k+1
-//@     invariant [C01 sim] $k >= 0 ==> EqButOff(spec.Run(qi, S, base+o1+$k), R1) && spec.Run(qi, S, base+o1+$k).Off == base+o1+$k
+//@     invariant [C01 C09 sim] EqButOff(spec.Run(qi, S, base+o1+$k+1), R1) && spec.Run(qi, S, base+o1+$k+1).Off == base+o1+$k+1
+//@     invariant [C01 C09 sim] $k >= 0 ==> EqButOff(spec.Run(qi, S, base+o1+$k), R1) && spec.Run(qi, S, base+o1+$k).Off == base+o1+$k
 //@     use spec.Run.unfold(qi, S, base+o1+$k+1)
 //@   loop 3
 //@     let o1 = off + 1
@@ -128,8 +128,8 @@ package oj
 //@     invariant $k >= 0 ==> i == $k && b == $s[$k]
 //@     invariant $k == -1 ==> i == i0 && b == b0
 //@     invariant $k >= 0 ==> stringMap[b] == strOk
-//@     invariant [C01 sim] EqButOff(spec.Run(qi, S, base+o1+$k+1), R1) && spec.Run(qi, S, base+o1+$k+1).Off == base+o1+$k+1
-//@     invariant [C01 sim] $k >= 0 ==> EqButOff(spec.Run(qi, S, base+o1+$k), R1) && spec.Run(qi, S, base+o1+$k).Off == base+o1+$k
+//@     invariant [C01 C09 sim] EqButOff(spec.Run(qi, S, base+o1+$k+1), R1) && spec.Run(qi, S, base+o1+$k+1).Off == base+o1+$k+1
+//@     invariant [C01 C09 sim] $k >= 0 ==> EqButOff(spec.Run(qi, S, base+o1+$k), R1) && spec.Run(qi, S, base+o1+$k).Off == base+o1+$k
 //@     use spec.Run.unfold(qi, S, base+o1+$k+1)
 //@   loop 4
 //@     let o1 = off + 1
@@ -140,8 +140,8 @@ package oj
 //@     invariant $k >= 0 ==> i == $k && b == $s[$k]
 //@     invariant $k == -1 ==> i == i0 && b == b0
 //@     invariant $k >= 0 ==> spaceMap[b] == skipChar
-//@     invariant [C01 sim] EqButOff(spec.Run(qi, S, base+o1+$k+1), R1) && spec.Run(qi, S, base+o1+$k+1).Off == base+o1+$k+1
-//@     invariant [C01 sim] $k >= 0 ==> EqButOff(spec.Run(qi, S, base+o1+$k), R1) && spec.Run(qi, S, base+o1+$k).Off == base+o1+$k
+//@     invariant [C01 C09 sim] EqButOff(spec.Run(qi, S, base+o1+$k+1), R1) && spec.Run(qi, S, base+o1+$k+1).Off == base+o1+$k+1
+//@     invariant [C01 C09 sim] $k >= 0 ==> EqButOff(spec.Run(qi, S, base+o1+$k), R1) && spec.Run(qi, S, base+o1+$k).Off == base+o1+$k
 //@     use spec.Run.unfold(qi, S, base+o1+$k+1)
 
 // ---------------------------------------------------------------------------
